@@ -38,7 +38,11 @@ StepOK(kind, s) == Offered(kind, s.param, s.form) /\ s.val \in ValuesOf(s.param)
 
 \* constructor options come first (in their own order), then everything else in order:
 \* the effective order of a step sequence
-Effective(steps) == SelectSeq(steps, LAMBDA s : s.form = "opt") \o SelectSeq(steps, LAMBDA s : s.form # "opt")
+\* (form "inprep": a setting the node's own prep callback applies to the node while it runs - it is the last setting of
+\* all, the getters read before the run do not show it yet, the behaviour of that run does: the retry settings are read
+\* after prep, flyt.go:707-713, the batch settings after prep as well, batch.go:196-210)
+Effective(steps) == SelectSeq(steps, LAMBDA s : s.form = "opt") \o SelectSeq(steps, LAMBDA s : s.form \notin {"opt", "inprep"})
+                    \o SelectSeq(steps, LAMBDA s : s.form = "inprep")
 
 RECURSIVE ApplyAll(_, _)
 ApplyAll(c, steps) == IF steps = <<>> THEN c ELSE ApplyAll([c EXCEPT ![Head(steps).param] = Head(steps).val], Tail(steps))
@@ -92,7 +96,11 @@ PoolSizeOK(e) == LET eff == IF e.size <= 0 THEN 1 ELSE e.size IN ~e.hung /\ e.ra
 
 C19_Failing(c, h) ==
   IF c.kind = "pool" THEN (IF \A i \in 1..Len(h) : h[i].ev = "poolsize" => PoolSizeOK(h[i]) THEN {} ELSE {"poolSizeDefault"}) ELSE
-  LET exp   == Expected(StepsOf(h))
+  LET all   == StepsOf(h)
+      built == SelectSeq(all, LAMBDA s : s.form # "inprep")
+      gexp  == Expected(built)                                   \* what the getters show before the node runs
+      \* how the node behaves when it runs: with the settings its prep applies, if it has a prep function
+      exp   == IF gexp.prep # 0 THEN [Expected(all) EXCEPT !.prep = gexp.prep] ELSE gexp
       probes == SelectSeq(h, LAMBDA e : e.ev = "probe")
       p     == probes[1]
       \* what the probe runs can observe depends on which functions are installed
@@ -100,7 +108,7 @@ C19_Failing(c, h) ==
   IN IF Len(probes) # 1 THEN {"probeMissing"}
      ELSE
        (IF p.panicked THEN {"probePanicked"} ELSE {})
-       \cup (IF p.retries = exp.retries /\ p.wait = exp.wait /\ p.conc = exp.conc /\ p.mode = exp.mode THEN {} ELSE {"getters"})
+       \cup (IF p.retries = gexp.retries /\ p.wait = gexp.wait /\ p.conc = gexp.conc /\ p.mode = gexp.mode THEN {} ELSE {"getters"})
        \cup (IF p.prepfn = exp.prep /\ p.postfn = exp.post /\ (execObservable => p.execfn = exp.exec)
                 /\ ((c.kind = "node" /\ execObservable) => p.fbfn = exp.fb) THEN {} ELSE {"functionsInstalled"})
        \* behaviour of the probe runs: attempts on an always-failing exec, concurrency high-water mark, stop/continue
